@@ -480,6 +480,11 @@ func (g *Generator) makeMessage(message *Component) string {
 				}
 			}
 
+			if !hasFieldMember(message, fieldName) {
+				panic(fmt.Errorf("the field %s required for standard pipelines is not a member of the message %s",
+					fieldName, message.Name))
+			}
+
 			fieldSetters = append(fieldSetters,
 				g.mustExecuteTemplate(defaultFieldSetterTemplateFormat, fieldGetterSetterTemplate{
 					Name:          field.Name,
@@ -705,6 +710,18 @@ func (g *Generator) makeCallConstructor(member *ComponentMember) string {
 		"Unexpected item time. Expected value: %s, %s, %s; specified value: '%s'",
 		ComponentItem, GroupItem, FieldItem, member.XMLName.Local,
 	))
+}
+
+// hasFieldMember reports whether the message has a field member with the given name
+// (the generated accessors of the standard pipelines rely on it).
+func hasFieldMember(message *Component, name string) bool {
+	for _, member := range message.Members {
+		if member.XMLName.Local == FieldItem && member.Name == name {
+			return true
+		}
+	}
+
+	return false
 }
 
 func sortedMapKeys(m map[string]bool) []string {
